@@ -29,6 +29,8 @@ def coerce(val):
             try:
                 return float(val)
             except ValueError:
+                if val in ("True", "False"):
+                    return val == "True"
                 return val
     return val
 
@@ -77,6 +79,25 @@ def rule_config_class(ctx, repo):
     else:
         ctx.check(not bad, "C20.coercion", "Config._set", "%d input classes: str -> int, else float, else unchanged; non-strings stored as given" % len(samples),
                   "; ".join(bad[:4]), s.W())
+    # text round trip: save_config writes str(v); for every kind of non-string value _set stores as given (and check() accepts for an
+    # enumerated field: True == 1), reading that text back must give the value with its type
+    bad2, undec2 = [], None
+    for v in (3, -4, 2.5, 1e-8, True, False):
+        so = Self()
+        try:
+            TinyExec(repo, "Config", COMMON).call("_set", so, "k", str(v))
+        except Unsupported as ex:
+            undec2 = str(ex)
+            break
+        got = so.d.get("k", "<not stored>")
+        if type(got) is not type(v) or got != v:
+            bad2.append("%r is written as the text %r and read back as %r (%s)" % (v, str(v), got, type(got).__name__))
+    if undec2:
+        ctx.undecided("C20.roundtrip", "Config._set/text-round-trip", "evaluator: %s" % undec2, s.W())
+    else:
+        ctx.check(not bad2, "C20.roundtrip", "Config._set/text-round-trip", "int, float and bool values read back from their saved text with their type",
+                  "; ".join(bad2[:3]) + " -- a Boolean accepted for a (0, 1) field is saved as `True`, which the loader keeps as a string and "
+                  "check() then rejects: the saved configuration cannot be loaded", s.W())
     c = F.method(repo, "Config", "check", COMMON)
     rs = [n for n in walk_noscope(c.fn) if isinstance(n, ast.Raise) and "ValueError" in src(n)]
     t = [n for n in walk_noscope(c.fn) if isinstance(n, ast.If) and Q.match("val not in _alt", n.test)]
